@@ -27,12 +27,18 @@ func runIndentPair(c *Ctx, r *Reporter) {
 		return
 	}
 	total := 0
+	// direct changes of indentLevel per function
+	type change struct{ incs, decs []ssa.Instruction }
+	direct := map[*ssa.Function]*change{}
+	var order []*FuncDecl
 	for _, fd := range Funcs(pkg) {
 		sf := p.SSAFunc(fd.Obj)
 		if sf == nil {
 			continue
 		}
-		var incs, decs []*ssa.Store
+		order = append(order, fd)
+		ch := &change{}
+		direct[sf] = ch
 		for _, b := range sf.Blocks {
 			for _, ins := range b.Instrs {
 				st, ok := ins.(*ssa.Store)
@@ -57,9 +63,49 @@ func runIndentPair(c *Ctx, r *Reporter) {
 					continue
 				}
 				if bo.Op == token.ADD {
-					incs = append(incs, st)
+					ch.incs = append(ch.incs, st)
 				} else if bo.Op == token.SUB {
-					decs = append(decs, st)
+					ch.decs = append(ch.decs, st)
+				}
+			}
+		}
+	}
+	// a helper that opens (closes) a level — exactly one increment (decrement), on every path, outside any loop, and
+	// no change the other way — stands for that increment (decrement) at each of its call sites
+	openers, closers := map[*ssa.Function]bool{}, map[*ssa.Function]bool{}
+	for sf, ch := range direct {
+		once := func(list []ssa.Instruction) bool {
+			return len(list) == 1 && !inCycle(list[0].Block()) && !anyReturnPathAvoiding(sf.Blocks[0], []*ssa.BasicBlock{list[0].Block()})
+		}
+		switch {
+		case len(ch.decs) == 0 && once(ch.incs):
+			openers[sf] = true
+		case len(ch.incs) == 0 && once(ch.decs):
+			closers[sf] = true
+		}
+	}
+	for _, fd := range order {
+		sf := p.SSAFunc(fd.Obj)
+		ch := direct[sf]
+		if openers[sf] || closers[sf] {
+			total++
+			what := "opens"
+			if closers[sf] {
+				what = "closes"
+			}
+			r.Ok(fd.QName()+"#indent-balance", p.Rel(fd.Decl.Pos()), what+" one indentation level on every path: its call sites are paired in its callers")
+			continue
+		}
+		incs, decs := append([]ssa.Instruction{}, ch.incs...), append([]ssa.Instruction{}, ch.decs...)
+		for _, b := range sf.Blocks {
+			for _, ins := range b.Instrs {
+				if call, ok := ins.(*ssa.Call); ok && call.Call.StaticCallee() != nil {
+					if openers[call.Call.StaticCallee()] {
+						incs = append(incs, call)
+					}
+					if closers[call.Call.StaticCallee()] {
+						decs = append(decs, call)
+					}
 				}
 			}
 		}
@@ -101,23 +147,72 @@ func runIndentPair(c *Ctx, r *Reporter) {
 		r.Undecided("const indentStr not found")
 	}
 	if fd := FindFunc(pkg, "(*formatting).indent"); fd != nil {
-		// writes indentStr inside a loop bounded by indentLevel
+		// writes indentStr inside a loop that counts from 0 up to indentLevel (`for range f.indentLevel`, or a counting
+		// for statement), or writes strings.Repeat(indentStr, indentLevel)
 		okI := false
-		ast.Inspect(fd.Decl.Body, func(n ast.Node) bool {
-			rs, ok := n.(*ast.RangeStmt)
+		unit := ""
+		if obj, ok := pkg.Types.Scope().Lookup("indentStr").(*types.Const); ok {
+			unit = constant.StringVal(obj.Val())
+		}
+		isUnit := func(v ssa.Value) bool {
+			k, ok := v.(*ssa.Const)
+			return ok && k.Value != nil && k.Value.Kind() == constant.String && constant.StringVal(k.Value) == unit && unit != ""
+		}
+		isCounter := func(v ssa.Value) bool { // phi [0, phi+1] or its successor phi+1
+			if bo, ok := v.(*ssa.BinOp); ok && bo.Op == token.ADD {
+				if k, ok := bo.Y.(*ssa.Const); ok && k.Value != nil && k.Value.ExactString() == "1" {
+					v = bo.X
+				}
+			}
+			phi, ok := v.(*ssa.Phi)
 			if !ok {
-				return true
+				return false
 			}
-			if sel, ok := ast.Unparen(rs.X).(*ast.SelectorExpr); ok && sel.Sel.Name == "indentLevel" {
-				ast.Inspect(rs.Body, func(m ast.Node) bool {
-					if id, ok := m.(*ast.Ident); ok && id.Name == "indentStr" {
-						okI = true
+			zero, step := false, false
+			for _, e := range phi.Edges {
+				if k, ok := e.(*ssa.Const); ok && k.Value != nil && k.Value.ExactString() == "0" {
+					zero = true
+				} else if bo, ok := e.(*ssa.BinOp); ok && bo.Op == token.ADD && bo.X == ssa.Value(phi) {
+					if k, ok := bo.Y.(*ssa.Const); ok && k.Value != nil && k.Value.ExactString() == "1" {
+						step = true
 					}
-					return true
-				})
+				} else {
+					return false
+				}
 			}
-			return true
-		})
+			return zero && step
+		}
+		if sf := p.SSAFunc(fd.Obj); sf != nil {
+			for _, b := range sf.Blocks {
+				for _, ins := range b.Instrs {
+					call, ok := ins.(*ssa.Call)
+					if !ok || call.Call.StaticCallee() == nil || call.Call.StaticCallee().Name() != "write" || len(call.Call.Args) < 2 {
+						continue
+					}
+					arg := call.Call.Args[len(call.Call.Args)-1]
+					if rep, ok := arg.(*ssa.Call); ok && rep.Call.StaticCallee() != nil && pkgFuncName(rep.Call.StaticCallee()) == "strings.Repeat" && !inCycle(b) {
+						if isUnit(rep.Call.Args[0]) && loadsField(rep.Call.Args[1], "indentLevel") {
+							okI = true
+						}
+						continue
+					}
+					if !isUnit(arg) || !inCycle(b) {
+						continue
+					}
+					// the test that keeps the loop going compares the counter with indentLevel
+					for _, lb := range sf.Blocks {
+						if len(lb.Instrs) == 0 || !(lb == b || (reachesBlock(lb, b) && reachesBlock(b, lb))) {
+							continue
+						}
+						if ifi, ok := lb.Instrs[len(lb.Instrs)-1].(*ssa.If); ok {
+							if bo, ok := ifi.Cond.(*ssa.BinOp); ok && bo.Op == token.LSS && isCounter(bo.X) && loadsField(bo.Y, "indentLevel") {
+								okI = true
+							}
+						}
+					}
+				}
+			}
+		}
 		r.Check(okI, fd.QName()+"#unit-per-level", p.Rel(fd.Decl.Pos()), "one indentation unit is written per level", "indent() must write indentStr once per indentLevel")
 	} else {
 		r.Undecided("(*formatting).indent not found")
